@@ -5,19 +5,29 @@ package nebula
 //
 //  V: every vector of RemoteList.tla (a population, a rebuild, a change, a rebuild) is executed on a real RemoteList;
 //     CopyAddrs / ForEach / Len / relays are projected back to the abstract ids and compared with the reference lists.
+//     Histories of kind "static" run on the RemoteList of a static host inside a real LightHouse: the op "static" is a
+//     (re)load of the configuration file with a new static_host_map entry (LightHouse.reload -> ResetForOwner ->
+//     addStaticRemotes), everything else is applied to that list directly.
 //  T: seeded random call sequences on real RemoteLists over random concrete addresses; the harness computes the
 //     attribute table of those addresses itself (family, RFC1918, byte order, preferred-range membership) and TLC
 //     validates every recorded list against the reference (Trace_RemoteList.tla).
 
 import (
 	"bytes"
+	"context"
 	"encoding/json"
 	"fmt"
+	"io"
+	"log/slog"
 	"math/rand"
 	"net/netip"
 	"reflect"
 	"sort"
 	"testing"
+
+	"github.com/gaissmai/bart"
+	"github.com/slackhq/nebula/config"
+	"go.yaml.in/yaml/v3"
 )
 
 type c37Tab struct {
@@ -32,9 +42,10 @@ type c37Tab struct {
 }
 
 type c37Obs struct {
-	Addrs  []int `json:"addrs"`
-	Relays []int `json:"relays"`
-	Lag    bool  `json:"lag"`
+	Addrs  []int    `json:"addrs"`
+	Relays []int    `json:"relays"`
+	Lag    bool     `json:"lag"`
+	Resets []string `json:"resets"` // shapes (RemoteList.tla, Shape) of the owners reset since the previous rebuild
 }
 
 type c37Vec struct {
@@ -199,6 +210,70 @@ type c37List struct {
 	hr    *hostnamesResults
 	flip  bool
 	extra func(what string, detail any) // API-consistency problems (ForEach/Len vs CopyAddrs)
+	// static-host mode: the list lives in a LightHouse, ourselves = owner 1, the host = w.peer
+	lh     *LightHouse
+	cfg    *config.C
+	cancel context.CancelFunc
+}
+
+func (c *c37List) close() {
+	if c.cancel != nil {
+		c.cancel()
+	}
+}
+
+// c37StaticYAML is the configuration file of the node with the given static_host_map literals for the host w.peer.
+func c37StaticYAML(w *c37World, ids []int) string {
+	shm := map[string]any{}
+	if len(ids) > 0 {
+		var l []any
+		for _, x := range ids {
+			l = append(l, w.ap(x).String())
+		}
+		shm[w.peer.String()] = l
+	}
+	b, err := yaml.Marshal(map[string]any{
+		"lighthouse":      map[string]any{"am_lighthouse": true},
+		"listen":          map[string]any{"port": 4242},
+		"static_host_map": shm,
+	})
+	if err != nil {
+		panic(err)
+	}
+	return string(b)
+}
+
+// c37NewStaticList builds a LightHouse (ourselves = owner 1) from a configuration whose static_host_map holds the host.
+func c37NewStaticList(w *c37World, ids []int) *c37List {
+	l := slog.New(slog.NewTextHandler(io.Discard, nil))
+	cfg := config.NewC(l)
+	if err := cfg.LoadString(c37StaticYAML(w, ids)); err != nil {
+		panic(fmt.Sprintf("verif: configuration: %v", err))
+	}
+	net := netip.PrefixFrom(w.owners[1], 24)
+	nt := new(bart.Lite)
+	nt.Insert(net.Masked())
+	cs := &CertState{myVpnNetworks: []netip.Prefix{net}, myVpnNetworksTable: nt}
+	ctx, cancel := context.WithCancel(context.Background())
+	lh, err := NewLightHouseFromConfig(ctx, l, cfg, cs, nil, nil)
+	if err != nil {
+		panic(fmt.Sprintf("verif: NewLightHouseFromConfig: %v", err))
+	}
+	c := &c37List{w: w, lh: lh, cfg: cfg, cancel: cancel}
+	c.fetch()
+	if c.rl == nil {
+		panic("verif: the static host has no RemoteList")
+	}
+	return c
+}
+
+// fetch looks the host's list up the way LightHouse.Query does
+func (c *c37List) fetch() {
+	c.lh.RLock()
+	if rl := c.lh.addrMap[c.w.peer]; rl != nil {
+		c.rl = rl
+	}
+	c.lh.RUnlock()
 }
 
 func c37NewList(w *c37World) *c37List {
@@ -264,6 +339,15 @@ func (c *c37List) apply(name string, args []json.RawMessage) {
 		rl.Unlock()
 	case "reset":
 		rl.ResetForOwner(w.owners[vInt(args[0])])
+	case "static":
+		// SIGHUP with an edited static_host_map
+		if vInt(args[0]) != 1 || c.lh == nil {
+			panic("verif: static op outside a static-host history")
+		}
+		if err := c.cfg.ReloadConfigString(c37StaticYAML(w, c37Ints(args[1]))); err != nil {
+			panic(fmt.Sprintf("verif: reload: %v", err))
+		}
+		c.fetch()
 	case "dns":
 		m := map[netip.AddrPort]struct{}{}
 		for _, x := range c37Ints(args[0]) {
@@ -456,12 +540,22 @@ func TestVerif_C37(t *testing.T) {
 		if n%1500 == 1 {
 			res.Sample(json.RawMessage(append([]byte(nil), line...)))
 		}
-		c := c37NewList(w)
+		var c *c37List
+		ops := v.In.Ops
+		if v.In.Kind == "static" {
+			// the first op is the initial load of the configuration
+			c = c37NewStaticList(w, c37Ints(ops[0][2]))
+			res.Hit("static")
+			ops = ops[1:]
+		} else {
+			c = c37NewList(w)
+		}
+		defer c.close()
 		c.extra = func(what string, detail any) {
 			res.Mismatch("vec:"+what, "ForEach/Len disagree with CopyAddrs", map[string]any{"ops": v.In.Ops, "detail": detail})
 		}
 		k := 0
-		for si, op := range v.In.Ops {
+		for si, op := range ops {
 			name := vStr(op[0])
 			if name != "rebuild" {
 				c.apply(name, op[1:])
@@ -476,9 +570,23 @@ func TestVerif_C37(t *testing.T) {
 			if e.Lag {
 				res.Hit("rebuild-after-unblock")
 			}
+			// the class of the history: which kind of owner was reset since the previous rebuild
+			after := ""
+			for _, sh := range e.Resets {
+				res.Hit("reset:" + sh)
+				after = ":after-reset:" + sh
+			}
+			if v.In.Kind == "static" {
+				after = ":static-host" + after
+			}
 			if cls, d := c37Class(addrs, e.Addrs, e.Lag); cls != "" {
-				res.Mismatch("vec:addrs:"+cls, fmt.Sprintf("CopyAddrs = %v, specification %v (ids 10*address+port) at step %d", addrs, e.Addrs, si),
-					map[string]any{"ops": v.In.Ops, "step": si, "got": addrs, "want": e.Addrs, "diff": d, "pref": p})
+				if cls != "extra" && cls != "missing" {
+					// arrangement problems are not attributed to the history class: they may depend on the iteration order of
+					// the owner map, and a key must reproduce on re-execution
+					after = ""
+				}
+				res.Mismatch("vec:addrs:"+cls+after, fmt.Sprintf("CopyAddrs = %v, specification %v (ids 10*address+port) at step %d", addrs, e.Addrs, si),
+					map[string]any{"ops": v.In.Ops, "step": si, "got": addrs, "want": e.Addrs, "diff": d, "pref": p, "kind": v.In.Kind})
 				break
 			}
 			if cls := ro.check(relays, e.Relays, &tab); cls != "" {
@@ -638,8 +746,15 @@ func c37RandomTrace(rnd *rand.Rand, tr *vTracer, events int, withUnblock bool, r
 		tr.Event(map[string]any{"ev": "op", "op": op})
 		res.Hit("T:" + op[0].(string))
 	}
+	// every third history is about static-host style owners: their caches are built by prepends and learned addresses
+	// (only the family that is needed), seldom by lighthouse messages, and they are reset more often
+	staticStyle := rnd.Intn(3) == 0
 	for s := 0; s < events; s++ {
-		switch r := rnd.Intn(100); {
+		r := rnd.Intn(100)
+		if staticStyle && r < 22 && rnd.Intn(8) > 0 {
+			r = []int{42, 42, 48}[rnd.Intn(3)] // prepend, prepend, reset
+		}
+		switch {
 		case r < 22:
 			emit("rep", 1+rnd.Intn(2), randList(map[bool]int{true: 13, false: 6}[rnd.Intn(4) == 0]))
 		case r < 34:
